@@ -187,6 +187,16 @@ impl Prop for C02 {
 			return Ok(());
 		}
 		let exp = split(&case.text);
+		// also parse the same text borrowed from the MIDDLE of a larger buffer, at an odd offset:
+		// heap strings are word-aligned, sub-slices are not (alignment-dependent scanners)
+		{
+			let k = 1 + case.text.len() % 7;
+			let padded = format!("{}{}{}", &"~~~~~~~~"[..k], case.text, "~~~");
+			let sub = &padded[k..k + case.text.len()];
+			let mut scratch = Ctx::default();
+			by_fam!(case.fam, check(sub, &exp, &mut scratch)).map_err(|f| Failure::new(format!("misaligned:{}", f.sig), format!("(input borrowed at byte offset {k} of a larger buffer) {}", f.msg)))?;
+			cx.obs(scratch.observations);
+		}
 		let judged = by_fam!(case.fam, check(&case.text, &exp, cx))?;
 		if !judged {
 			cx.class("rejected-by-library");
@@ -250,7 +260,22 @@ impl Prop for C02 {
 				return vec![];
 			}
 		}
-		vec!["every ucschar / iprivate scalar value in every component slot it is allowed in (IRI family)"]
+		// every LENGTH 0..=1100 of every component (length-dependent special cases are not only at powers of two),
+		// then every 97th length up to 70 000
+		let lens: Vec<usize> = (0..=1100usize).chain((1100..70_000).step_by(97)).collect();
+		for (i, n) in lens.iter().enumerate() {
+			if i % nshards != shard {
+				continue;
+			}
+			let x = "x".repeat(*n);
+			for (k, text) in [format!("s://u@h/p?q#{x}"), format!("s://u@h/p?{x}#f"), format!("s://u@h/{x}?q#f"), format!("s://{x}@h/p?q#f"), format!("s://u@{x}:1/p?q#f"), format!("{x}/p?q#f"), format!("//h/a/{x}/b?{x}#{x}")].into_iter().enumerate() {
+				let fam = if (i + k) % 2 == 0 { Fam::Uri } else { Fam::Iri };
+				if !f(Case { fam, text }, false) {
+					return vec![];
+				}
+			}
+		}
+		vec!["every ucschar / iprivate scalar value in every component slot it is allowed in (IRI family)", "every component length 0..=1100 (and every 97th up to 70 000) for fragment, query, path, user info, host, first segment"]
 	}
 
 	fn floors(_tier: Tier) -> Vec<(&'static str, u64)> {
